@@ -315,3 +315,15 @@ Definition check_stage (c : string * option string) : bool :=
   | None, None => true
   | _, _ => false
   end.
+
+(* ---------------------------------------------------------------- the lexical reading of an archive *)
+(* where the members (and the files hard-link members are linked to) are created when no link is followed:
+   the normalised join of destination and name.  Proofs.v / Archive.v: for every archive the repaired check
+   accepts, [extract] (which does follow the links the archive brings) creates exactly these paths. *)
+Definition hard_lexical (d : list string) (ms : list member) : list (list string) :=
+  flat_map (fun m => match snd m with
+                     | KHard _ => match mtarget d m with Some tp => [snd tp] | None => [] end
+                     | _ => []
+                     end) ms.
+Definition extract_lexical (d : list string) (ms : list member) : list (list string) :=
+  (map (fun m => snd (mpath d m)) ms ++ hard_lexical d ms)%list.
